@@ -185,6 +185,7 @@ class Anatomy:
     store_cond: dict = field(default_factory=dict)
     store_kind: dict = field(default_factory=dict)
     stat_names: set = field(default_factory=set)
+    early: list = field(default_factory=list)  # (condition, overall Val, history Val, Return node): exits before the final return
 
 
 def make_tx(idx, extra_env=None):
@@ -272,6 +273,31 @@ def anatomy(idx, name) -> Anatomy:
             if only_stores([st]) and (st.body or st.orelse):
                 record([st], True)
                 continue
+            # an early exit `if c: ...; return p, history`: the test then has one more row, on which both components are those of
+            # this return (simple statements only; in-place stores on the way make the early history opaque)
+            if not st.orelse and st.body and isinstance(st.body[-1], ast.Return) and isinstance(st.body[-1].value, ast.Tuple) \
+                    and len(st.body[-1].value.elts) == 2 and not any(isinstance(x, ast.Return) for b in st.body[:-1] for x in ast.walk(b)):
+                c = tx.cond(st.test)
+                tb = tx.child(dict(tx.env))
+                tb.post = _recipes
+                opaque = set()
+                for s2 in st.body[:-1]:
+                    if isinstance(s2, ast.Expr):
+                        continue
+                    if isinstance(s2, ast.Assign) and not isinstance(s2.targets[0], ast.Subscript):
+                        v2 = tb.expr(s2.value)
+                        for t2 in s2.targets:
+                            tb._assign(t2, v2)
+                        continue
+                    if isinstance(s2, ast.Assign) and isinstance(s2.targets[0], ast.Subscript):
+                        opaque.add(norm(s2.targets[0].value))
+                        continue
+                    raise AnalysisError(f"{name}: statement {type(s2).__name__} at line {s2.lineno} in an early exit, outside the dialect")
+                for nm_ in opaque:
+                    tb.env[nm_] = E(sp.Function("stored_into")(S(nm_)))
+                r2 = st.body[-1]
+                an.early.append((c, map_leaves(tb.expr(r2.value.elts[0]), _recipes), map_leaves(tb.expr(r2.value.elts[1]), _recipes), r2))
+                continue
             r = tx.block([st])
             if r is not None:
                 raise AnalysisError(f"{name}: conditional return outside the modelled dialect")
@@ -298,6 +324,9 @@ def anatomy(idx, name) -> Anatomy:
         raise AnalysisError(f"{name}: expected `return p, p_history`")
     an.overall = map_leaves(tx.expr(an.ret.value.elts[0]), _recipes)
     an.history = map_leaves(tx.expr(an.ret.value.elts[1]), _recipes)
+    for c, ov, hv, _ in reversed(an.early):
+        an.overall = I(c, ov, an.overall)
+        an.history = I(c, hv, an.history)
     return an
 
 
